@@ -199,16 +199,14 @@ def createBuffer (s : BS) (ident : List Nat) (rootRef : Int) (align : Nat) (nest
   let s1 := bufPrep s (bufAlign s align) nested
   emitFront s1 (bufHeader s1 ident rootRef (bufAlign s align) nested)
 
-/-- `flatcc_builder_embed_buffer` -/
+/-- `flatcc_builder_embed_buffer` called while a buffer frame is open (`B->level > 0`: inside the top-level buffer or a
+nested one): the bytes become a nested buffer, wrapped in a ubyte vector -/
 def embedBuffer (s : BS) (data : List Nat) (align blockAlign : Nat) (withSize : Bool) : BS × Int :=
-  let nested := s.nestId ≠ 0
   let blockAlign := if blockAlign ≠ 0 then blockAlign else if s.blockAlign ≠ 0 then s.blockAlign else 1
   let align := max (max align 4) blockAlign
-  let s := if nested then s else
-    let endPad := backPad s align
-    if endPad = 0 then s else (emitBack s (zeros endPad)).1
+  let s := setMinAlign s align
   let pad := frontPad s (data.length + (if withSize then 4 else 0)) align
-  emitFront s ((if nested then le32 (data.length + pad) else []) ++ data ++ zeros pad)
+  emitFront s (le32 (data.length + pad) ++ data ++ zeros pad)
 
 /-- `flatcc_builder_start_buffer`: the parent's settings are saved in the frame (here: by the caller keeping the old
 state); `is_top_buffer` is tested on the parent, so a buffer nested directly in the top-level buffer keeps the alignment
